@@ -45,6 +45,20 @@ pub struct InstView {
     pub readd_seen: bool,
     /// this graph went through merge() as receiver
     pub merged: bool,
+    /// this graph (or an ancestor) came out of load()
+    pub crossed_load: bool,
+    /// this graph (or an ancestor) came out of clone()
+    pub crossed_clone: bool,
+    /// every basic operation that led to this state, merges and scripts flattened into
+    /// the add/bind/put calls they stand for (used to decide whose fault a divergence is)
+    pub oplog: Vec<LogOp>,
+}
+
+#[derive(Clone, Debug)]
+pub struct LogOp {
+    pub op: crate::exec::Op,
+    /// an add() that hit a present vertex
+    pub add_present: bool,
 }
 
 #[derive(Clone, Debug)]
@@ -55,6 +69,10 @@ pub struct SavedState {
     pub src_version: u64,
     pub len: usize,
     pub next_v: usize,
+    pub oplog: Vec<LogOp>,
+    pub crossed_clone: bool,
+    pub merged: bool,
+    pub readd_seen: bool,
 }
 
 #[derive(Clone, Debug, Default)]
